@@ -3,4 +3,5 @@ package main
 // genAll is extended property by property (walker exit sites, layouts, hazards, guards, lock regions).
 func genAll(src, out string) {
 	genWalker(src, out)
+	genHazards(src, out)
 }
